@@ -119,6 +119,10 @@ func build(c *core.Ctx, noAux bool) (*sched.Built, *pipe.Corpus) {
 		return nil, nil
 	}
 	j.NoAux = noAux
+	// thorough: additionally hook every field / element / pointee reached through ANY pointer,
+	// slice or map in the runtime and in the generated packages (superset of the quick hooks)
+	j.Deep = os.Getenv("VERIF_C20_DEEP") == "1" || (c.Thorough() && os.Getenv("VERIF_C20_DEEP") != "0")
+	c.Note("deep_instrumentation_family_b", j.Deep)
 	b, err := sched.Build(j)
 	if err != nil {
 		c.HarnessError("C20 family B: %v", err)
@@ -134,7 +138,7 @@ func Run(c *core.Ctx) {
 		"are opaque steps; instrumented: goa's pkg, http, http/middleware, middleware AND the generated service, views, server and client packages of every design")
 	c.Note("family_b_bounds", "2 threads x 1 request over a covering set of request pairs per mounted service (per method: every pair of request classes and each class with itself; "+
 		"across methods: a ring of valid x valid and valid x error), every schedule with <= 2 preemptions (quick); "+
-		"thorough: ALL pairs of the request universe of each service and a covering set of triples (3 threads), preemption bound 3 and all interleavings (sleep sets)")
+		"thorough: ALL pairs of the request universe of each service with <= 2 preemptions AND in all interleavings (sleep sets), and a covering set of triples (3 threads) with <= 2 preemptions")
 	b, corpus := build(c, false)
 	if b == nil {
 		return
